@@ -43,7 +43,8 @@ type loopInfo struct {
 	headSt  *State // state after havoc
 	preSt   *State // state before havoc (merged entry edges)
 	phis    []*ssa.Phi
-	mapIns  map[string]bool // map-domain kinds the loop may insert into (anything but delete)
+	mapIns  map[string]bool // map-domain kinds a call made by the loop may insert into
+	mapInsTypes []*types.Map // types of the maps the loop body itself inserts into (m[k] = v)
 	kinds   []string // heap kinds written in the loop
 	allHav  bool
 	allocs  bool
